@@ -475,7 +475,89 @@ fn struct_term(nlri: &Nlri) -> Option<Term> {
         Nlri::VpnV6(n) => Some(Term::tag("vpn", vec![labels(&n.labels), rd(&n.rd), Term::bytes(&n.prefix.addr.octets()), Term::nat(n.prefix.mask)])),
         Nlri::LabeledV4(n) => Some(Term::tag("lab", vec![labels(&n.labels), Term::bytes(&n.prefix.addr.octets()), Term::nat(n.prefix.mask)])),
         Nlri::LabeledV6(n) => Some(Term::tag("lab", vec![labels(&n.labels), Term::bytes(&n.prefix.addr.octets()), Term::nat(n.prefix.mask)])),
+        Nlri::FlowspecV4(n) => Some(Term::tag("flow", vec![Term::nat(0u32), Term::atom("none"), Term::list(n.components.iter().map(flow4_term).collect())])),
+        Nlri::FlowspecV6(n) => Some(Term::tag("flow", vec![Term::nat(1u32), Term::atom("none"), Term::list(n.components.iter().map(flow6_term).collect())])),
+        Nlri::FlowspecVpnV4(n) => Some(Term::tag("flow", vec![Term::nat(0u32), rd(&n.rd), Term::list(n.components.iter().map(flow4_term).collect())])),
+        Nlri::FlowspecVpnV6(n) => Some(Term::tag("flow", vec![Term::nat(1u32), rd(&n.rd), Term::list(n.components.iter().map(flow6_term).collect())])),
+        Nlri::Evpn(e) => {
+            use packet::evpn::EvpnNlri as E;
+            let ip = |a: &std::net::IpAddr| match a {
+                std::net::IpAddr::V4(x) => Term::bytes(&x.octets()),
+                std::net::IpAddr::V6(x) => Term::bytes(&x.octets()),
+            };
+            let v = match e {
+                E::EthernetAutoDiscovery(r) => vec![Term::atom("ead"), rd(&r.rd), Term::bytes(&r.esi.0), Term::nat(r.etag), Term::nat(r.label)],
+                E::MacIpAdvertisement(r) => vec![
+                    Term::atom("macip"),
+                    rd(&r.rd),
+                    Term::bytes(&r.esi.0),
+                    Term::nat(r.etag),
+                    Term::bytes(&r.mac),
+                    r.ip.as_ref().map(ip).unwrap_or_else(|| Term::bytes(&[])),
+                    Term::nat(r.label1),
+                    r.label2.map(Term::nat).unwrap_or_else(|| Term::atom("none")),
+                ],
+                E::InclusiveMulticastEthernetTag(r) => vec![Term::atom("imet"), rd(&r.rd), Term::nat(r.etag), ip(&r.originating_router_ip)],
+                E::EthernetSegment(r) => vec![Term::atom("es"), rd(&r.rd), Term::bytes(&r.esi.0), ip(&r.originating_router_ip)],
+                E::EthernetIpPrefix(r) => vec![
+                    Term::atom("pfx"),
+                    rd(&r.rd),
+                    Term::bytes(&r.esi.0),
+                    Term::nat(r.etag),
+                    Term::nat(r.prefix_len),
+                    ip(&r.ip_prefix),
+                    ip(&r.gateway_ip),
+                    Term::nat(r.label),
+                ],
+            };
+            Some(Term::tag("evpn", v))
+        }
         _ => None,
+    }
+}
+
+fn flow_ops(ty: u32, ops: &[packet::flowspec::Op]) -> Term {
+    let mut v = vec![Term::nat(ty)];
+    v.extend(ops.iter().map(|o| Term::list(vec![Term::nat(o.bits), Term::nat(o.value)])));
+    Term::tag("n", v)
+}
+
+fn flow4_term(c: &packet::flowspec::FlowspecV4Component) -> Term {
+    use packet::flowspec::FlowspecV4Component as C;
+    let p = |ty: u32, n: &packet::bgp::Ipv4Net| Term::tag("p", vec![Term::nat(ty), Term::nat(n.mask), Term::nat(0u32), Term::bytes(&n.addr.octets())]);
+    match c {
+        C::DstPrefix(n) => p(1, n),
+        C::SrcPrefix(n) => p(2, n),
+        C::Protocol(o) => flow_ops(3, o),
+        C::Port(o) => flow_ops(4, o),
+        C::DstPort(o) => flow_ops(5, o),
+        C::SrcPort(o) => flow_ops(6, o),
+        C::IcmpType(o) => flow_ops(7, o),
+        C::IcmpCode(o) => flow_ops(8, o),
+        C::TcpFlags(o) => flow_ops(9, o),
+        C::PacketLen(o) => flow_ops(10, o),
+        C::Dscp(o) => flow_ops(11, o),
+        C::Fragment(o) => flow_ops(12, o),
+    }
+}
+
+fn flow6_term(c: &packet::flowspec::FlowspecV6Component) -> Term {
+    use packet::flowspec::FlowspecV6Component as C;
+    let p = |ty: u32, n: &packet::bgp::Ipv6Net, off: u8| Term::tag("p", vec![Term::nat(ty), Term::nat(n.mask), Term::nat(off), Term::bytes(&n.addr.octets())]);
+    match c {
+        C::DstPrefix { prefix, offset } => p(1, prefix, *offset),
+        C::SrcPrefix { prefix, offset } => p(2, prefix, *offset),
+        C::NextHeader(o) => flow_ops(3, o),
+        C::Port(o) => flow_ops(4, o),
+        C::DstPort(o) => flow_ops(5, o),
+        C::SrcPort(o) => flow_ops(6, o),
+        C::IcmpType(o) => flow_ops(7, o),
+        C::IcmpCode(o) => flow_ops(8, o),
+        C::TcpFlags(o) => flow_ops(9, o),
+        C::PacketLen(o) => flow_ops(10, o),
+        C::Dscp(o) => flow_ops(11, o),
+        C::Fragment(o) => flow_ops(12, o),
+        C::FlowLabel(o) => flow_ops(13, o),
     }
 }
 
